@@ -883,7 +883,7 @@ pub mod std {
         pub fn set_permissions(p: &Path, perm: Permissions, Tracked(w): Tracked<&mut World>) -> (r: std::io::Result<()>)
             requires
                 old(w).inv(),
-                old(w).private_inode(pv(p)),   // @L C03 C19 C15:chmod-only-before-publication
+                old(w).owned.contains(pv(p)) && !old(w).under_ro(pv(p)) && (old(w).private_inode(pv(p)) || !perm.writable()),   // @L C03 C19 C15:write-permission-is-never-added-to-a-visible-file
             ensures
                 final(w).stepped(*old(w)),
                 final(w).inv(),
